@@ -1,6 +1,7 @@
 // Independent strict RFC 8259 parser, a JSON writer with random but legal style, and a generator of JSON
 // value trees. Used as oracle by the C05/C06 scenarios; shares no code with asl.
 #pragma once
+#include <cmath>
 #include <string>
 #include <vector>
 #include <stdint.h>
@@ -515,6 +516,15 @@ inline void writeJson(std::string& o, const JV& v, sim::Prng& r, bool fancy)
 			snprintf(b, sizeof b, "%lld", v.i);
 		else if (v.isFloat)
 			snprintf(b, sizeof b, "%.9g", v.d);
+		else if (fancy && v.d == std::floor(v.d) && std::fabs(v.d) >= 1e15 && std::fabs(v.d) < 1e60 && r.below(2))
+		{
+			// an integer-valued double written out as a plain digit string (20 to 60 digits): a valid JSON number that no
+			// machine integer holds
+			char big[96];
+			snprintf(big, sizeof big, "%.0f", v.d);
+			o += big;
+			break;
+		}
 		else
 			snprintf(b, sizeof b, r.below(2) ? "%.17g" : "%.17e", v.d);
 		if (!strchr(b, '.') && !strchr(b, 'e') && !v.isInt && fancy && r.below(2))
